@@ -446,7 +446,21 @@ def _use(run, P):
         whole = t
         if isinstance(t, ast.BoolOp) and isinstance(t.op, ast.Or):
             # a comment, or a line short enough to need no wrapping: passed through as it is
+            others = [v_ for v_ in t.values if "startswith('!')" not in ast.unparse(v_)]
             t = next((v_ for v_ in t.values if "startswith('!')" in ast.unparse(v_)), t)
+            lines = {dotted(l_.target) for l_ in ast.walk(f.node) if isinstance(l_, ast.For)
+                     and any(y is tests[0] for y in ast.walk(l_))}
+            for o_ in others:
+                measured = [c_.args[0] for c_ in ast.walk(o_) if isinstance(c_, ast.Call)
+                            and dotted(c_.func) == "len" and c_.args]
+                if not (isinstance(o_, ast.Compare) and len(measured) == 1):
+                    raise AnalysisError(f"get_code: lines are also passed through under {norm(o_, 60)}; "
+                                        "not read")
+                run.ob("C20.use", f, o_, dotted(measured[0]) in lines,
+                       construct=f"short lines are passed through by the length of the whole line "
+                                 f"(measured: {norm(measured[0], 40)})",
+                       why="the limit applies to the line as emitted, indentation included: measured "
+                           "without it, an indented line that is too long is not wrapped")
         recv = t.func.value if isinstance(t, ast.Call) and isinstance(t.func, ast.Attribute) else None
         arg = wraps[0].args[0] if wraps[0].args else None
         # the wrapping call runs only when the comment test fails, however that is laid out
